@@ -287,28 +287,53 @@ Qed.
 (* ------------------------------------------------------------------ *)
 (* the two loops in lock step                                          *)
 
-Definition out_sim (a b : list (option obj) * option err) : Prop :=
-  map item_vals (fst a) = map item_vals (fst b) /\ snd a = snd b.
+(* same item values row by row, same exception; generic in the item type (objects / tuples of objects) *)
+Definition out_sim_g {X V : Type} (vals : X -> V) (a b : list X * option err) : Prop :=
+  map vals (fst a) = map vals (fst b) /\ snd a = snd b.
+Definition out_sim (a b : list (option obj) * option err) : Prop := out_sim_g item_vals a b.
+(* the values of a tuple of items *)
+Definition tuple_vals (t : list (option obj)) : list (option (list value)) := map item_vals t.
+Definition out_sim_m (a b : list (list (option obj)) * option err) : Prop := out_sim_g tuple_vals a b.
 
 Definition plain_of (cf : config) : config :=
   mkConfig (cf_rules cf) (cf_nid cf) (cf_stop cf) false.
+Definition plain_m (mc : mconfig) : mconfig := mkMConfig (mc_objs mc) (mc_stop mc) false.
 
-Lemma iter_rows_sim cf bs f w :
+(* a constructor of items that looks at the cell values only *)
+Definition ctor_vals {X V : Type} (vals : X -> V) (ctor : list cell -> res X) : Prop :=
+  forall row row', map c_val row = map c_val row' ->
+                   res_rel (fun it it' => vals it = vals it') (ctor row) (ctor row').
+
+Lemma construct_all_vals objs bss : ctor_vals tuple_vals (construct_all objs bss).
+Proof.
+  intros row row' H. unfold construct_all.
+  pose proof (map_res_rel (fun it it' => item_vals it = item_vals it')
+                (fun p => construct (fst (fst p)) (snd p) (snd (fst p)) row)
+                (fun p => construct (fst (fst p)) (snd p) (snd (fst p)) row')
+                (combine objs bss)
+                (fun p _ => construct_vals (fst (fst p)) (snd p) (snd (fst p)) row row' H)) as Hm.
+  destruct (map_res _ (combine objs bss)) as [t|e], (map_res _ (combine objs bss)) as [t'|e'];
+    cbn in Hm |- *; try contradiction; [|exact Hm].
+  unfold tuple_vals. induction Hm; cbn; congruence.
+Qed.
+
+Lemma iter_gen_sim {X V : Type} (vals : X -> V) cf (ctor : list cell -> res X) f w :
+  ctor_vals vals ctor ->
   cf_ladder cf = true ->
   (stop_first cf = false \/ (0 < f)%nat) ->
   forall vrows r0 prevL prevP,
     Forall (fun vs => length vs = w) vrows ->
     (forall p, prevL = Some p -> length p = w) ->
-    out_sim (iter_rows cf bs (Some f) prevL (index_rows r0 vrows))
-            (iter_rows (plain_of cf) bs (Some f) prevP
-                       (index_rows r0 (vfill_body f (option_map (map c_val) prevL) vrows))).
+    out_sim_g vals (iter_gen cf ctor (Some f) prevL (index_rows r0 vrows))
+              (iter_gen (plain_of cf) ctor (Some f) prevP
+                        (index_rows r0 (vfill_body f (option_map (map c_val) prevL) vrows))).
 Proof.
-  intros Hlad Hg. induction vrows as [|vs vrows IH]; intros r0 prevL prevP Hw Hp.
+  intros Hctor Hlad Hg. induction vrows as [|vs vrows IH]; intros r0 prevL prevP Hw Hp.
   - cbn. split; reflexivity.
   - inversion Hw as [|? ? Hw1 Hw2]; subst. cbn [vfill_body].
     destruct (vrow_blank vs) eqn:Eb.
     + (* a wholly blank row ends the table in both readings (or raises in both) *)
-      cbn [index_rows iter_rows]. rewrite !is_end_index.
+      cbn [index_rows iter_gen]. rewrite !is_end_index.
       assert (Hv : vis_end (plain_of cf) vs = vis_end cf vs) by reflexivity. rewrite Hv.
       assert (He : vis_end cf vs = Ok true \/ exists e, vis_end cf vs = Err e).
       { unfold vis_end. destruct (stop_first cf).
@@ -318,13 +343,13 @@ Proof.
       destruct He as [->|[e ->]]; split; reflexivity.
     + set (curv := match option_map (map c_val) prevL with
                    | None => vs | Some p => vfill_row f p vs end).
-      cbn [index_rows iter_rows]. rewrite !is_end_index.
+      cbn [index_rows iter_gen]. rewrite !is_end_index.
       assert (Hend : vis_end (plain_of cf) curv = vis_end cf vs).
       { unfold curv. destruct prevL as [p|]; cbn [option_map]; [|reflexivity].
         apply vis_end_fill; auto. }
       rewrite Hend. destruct (vis_end cf vs) as [[|]|e]; try (split; reflexivity).
-      cbn [cf_ladder plain_of]. rewrite Hlad.
-      (* the row handed to construct in the ladder reading *)
+      unfold cur_row. cbn [cf_ladder plain_of]. rewrite Hlad.
+      (* the row handed to the constructor in the ladder reading *)
       assert (Hcur : exists cur, (match prevL with
                                   | Some p => fill_row f p (index_row r0 0 vs)
                                   | None => Ok (index_row r0 0 vs) end) = Ok cur /\
@@ -335,19 +360,17 @@ Proof.
           exists r. rewrite map_cval_index_row in H2. rewrite index_row_length in H3. auto.
         - exists (index_row r0 0 vs). rewrite map_cval_index_row, index_row_length. auto. }
       destruct Hcur as [cur [Hc1 [Hc2 Hc3]]]. rewrite Hc1.
-      pose proof (construct_vals (cf_rules cf) bs (cf_nid cf) cur (index_row r0 0 curv)) as Hcv.
+      pose proof (Hctor cur (index_row r0 0 curv)) as Hcv.
       rewrite map_cval_index_row in Hcv. specialize (Hcv Hc2).
-      cbn [cf_rules cf_nid plain_of].
-      destruct (construct (cf_rules cf) bs (cf_nid cf) cur) as [o|e],
-               (construct (cf_rules cf) bs (cf_nid cf) (index_row r0 0 curv)) as [o'|e'];
+      destruct (ctor cur) as [o|e], (ctor (index_row r0 0 curv)) as [o'|e'];
         cbn in Hcv; try contradiction.
       * specialize (IH (S r0) (Some cur) (Some (index_row r0 0 curv)) Hw2).
         cbn [option_map] in IH. rewrite Hc2 in IH.
         assert (Hp' : forall p, Some cur = Some p -> length p = length vs).
         { intros p Hq. injection Hq as <-. exact Hc3. }
-        specialize (IH Hp'). unfold out_sim in *.
-        destruct (iter_rows cf bs (Some f) (Some cur) (index_rows (S r0) vrows)) as [os e1].
-        destruct (iter_rows (plain_of cf) bs (Some f) (Some (index_row r0 0 curv)) _) as [os' e2].
+        specialize (IH Hp'). unfold out_sim_g in *.
+        destruct (iter_gen cf ctor (Some f) (Some cur) (index_rows (S r0) vrows)) as [os e1].
+        destruct (iter_gen (plain_of cf) ctor (Some f) (Some (index_row r0 0 curv)) _) as [os' e2].
         cbn [fst snd map] in *. destruct IH as [IH1 IH2]. rewrite Hcv, IH1, IH2. split; reflexivity.
       * subst e'. split; reflexivity.
 Qed.
@@ -386,10 +409,53 @@ Proof.
       rewrite !titles_of_index. cbn [cf_rules plain_of].
       destruct (bind_all_k known (cf_rules cf) (map val_title vs)) as [bs|e]; [|split; reflexivity].
       destruct (first_some_pos_nonblank vs 0 Eb) as [f Hf]. rewrite Hf.
-      apply (iter_rows_sim cf bs f (length vs) Hlad) with (prevL := None) (prevP := None); auto.
+      rewrite !iter_rows_gen. cbn [cf_rules cf_nid plain_of].
+      apply (iter_gen_sim item_vals cf _ f (length vs) (construct_vals _ _ _) Hlad)
+        with (prevL := None) (prevP := None); auto.
       * destruct Hg as [Hg|Hg]; [left; exact Hg|right].
         specialize (Hg r0 vs eq_refl). rewrite Hf in Hg. destruct f; [congruence|lia].
       * intros p Hp. discriminate.
+Qed.
+
+(* the same for a reader with several rule sets *)
+Lemma read_cells_m_sim mc w :
+  mc_ladder mc = true ->
+  forall sh r0,
+    Forall (fun vs => length vs = w) sh ->
+    (stop_first (mc_loop mc) = false \/
+     forall t tvs, find_title sh r0 = Some (t, tvs) -> first_some_pos (map val_title tvs) 0 <> Some 0%nat) ->
+    out_sim_m (read_cells_m mc (index_rows r0 sh))
+              (read_cells_m (plain_m mc) (index_rows r0 (fill_sheet sh))).
+Proof.
+  intros Hlad. induction sh as [|vs rest IH]; intros r0 Hw Hg.
+  - cbn. split; reflexivity.
+  - inversion Hw as [|? ? Hw1 Hw2]; subst. cbn [fill_sheet find_title] in *.
+    destruct (vrow_blank vs) eqn:Eb.
+    + unfold read_cells_m. cbn [index_rows skip_blank]. rewrite !row_empty_index, Eb.
+      apply (IH (S r0) Hw2). exact Hg.
+    + unfold read_cells_m. cbn [index_rows skip_blank]. rewrite !row_empty_index, Eb.
+      rewrite !titles_of_index. cbn [mc_objs plain_m].
+      destruct (bind_objs (known_all (mc_objs mc)) (map val_title vs) (mc_objs mc)) as [bss|e];
+        [|split; reflexivity].
+      destruct (first_some_pos_nonblank vs 0 Eb) as [f Hf]. rewrite Hf.
+      rewrite !iter_rows_m_gen. cbn [mc_objs plain_m].
+      change (mc_loop (plain_m mc)) with (plain_of (mc_loop mc)).
+      apply (iter_gen_sim tuple_vals (mc_loop mc) _ f (length vs) (construct_all_vals _ _) Hlad)
+        with (prevL := None) (prevP := None); auto.
+      * destruct Hg as [Hg|Hg]; [left; exact Hg|right].
+        specialize (Hg r0 vs eq_refl). rewrite Hf in Hg. destruct f; [congruence|lia].
+      * intros p Hp. discriminate.
+Qed.
+
+Lemma ladder_equiv_m_gen mc sh w :
+  Forall (fun vs => length vs = w) sh ->
+  mc_ladder mc = true ->
+  (stop_first (mc_loop mc) = false \/ first_some_pos (sheet_titles sh) 0 <> Some 0%nat) ->
+  out_sim_m (read_table_m mc sh) (read_table_m (plain_m mc) (fill_sheet sh)).
+Proof.
+  intros Hw Hlad Hg. unfold read_table_m, index_sheet. apply (read_cells_m_sim mc w Hlad sh 0 Hw).
+  destruct Hg as [Hg|Hg]; [left; exact Hg|right]. intros t tvs Ht.
+  unfold sheet_titles, title_row in Hg. rewrite Ht in Hg. exact Hg.
 Qed.
 
 (* Reading a ladder table gives the same objects (and the same exception, if any) as reading the
@@ -439,26 +505,27 @@ Qed.
 
 (* b continues a: same items, then possibly more; a either agrees with b to the end or ended
    without an exception *)
-Definition out_prefix (a b : list (option obj) * option err) : Prop :=
-  exists rest, map item_vals (fst b) = map item_vals (fst a) ++ rest /\
+Definition out_prefix_g {X V : Type} (vals : X -> V) (a b : list X * option err) : Prop :=
+  exists rest, map vals (fst b) = map vals (fst a) ++ rest /\
                ((rest = [] /\ snd a = snd b) \/ snd a = None).
+Definition out_prefix (a b : list (option obj) * option err) : Prop := out_prefix_g item_vals a b.
 
-Lemma out_sim_prefix a b : out_sim a b -> out_prefix a b.
+Lemma out_sim_prefix {X V : Type} (vals : X -> V) a b : out_sim_g vals a b -> out_prefix_g vals a b.
 Proof. intros [H1 H2]. exists []. rewrite app_nil_r. auto. Qed.
 
-Lemma iter_rows_prefix cf bs :
+Lemma iter_gen_prefix {X V : Type} (vals : X -> V) cf (ctor : list cell -> res X) :
   cf_ladder cf = true -> stop_first cf = true ->
   forall vrows r0 prevL prevP,
-    out_prefix (iter_rows cf bs (Some 0%nat) prevL (index_rows r0 vrows))
-               (iter_rows (plain_of cf) bs (Some 0%nat) prevP
-                          (index_rows r0 (vfill_body 0 (option_map (map c_val) prevL) vrows))).
+    out_prefix_g vals (iter_gen cf ctor (Some 0%nat) prevL (index_rows r0 vrows))
+                 (iter_gen (plain_of cf) ctor (Some 0%nat) prevP
+                           (index_rows r0 (vfill_body 0 (option_map (map c_val) prevL) vrows))).
 Proof.
   intros Hlad Hstop. induction vrows as [|vs vrows IH]; intros r0 prevL prevP.
   - apply out_sim_prefix. split; reflexivity.
   - cbn [vfill_body]. destruct (vrow_blank vs) eqn:Eb.
     + (* a wholly blank row ends the table in both readings (or raises in both) *)
       apply out_sim_prefix.
-      cbn [index_rows iter_rows]. rewrite !is_end_index.
+      cbn [index_rows iter_gen]. rewrite !is_end_index.
       assert (Hv : vis_end (plain_of cf) vs = vis_end cf vs) by reflexivity. rewrite Hv.
       destruct (vis_end cf vs) as [[|]|e] eqn:Ee; try (split; reflexivity).
       exfalso. unfold vis_end in Ee. rewrite Hstop in Ee. destruct vs as [|v vs']; [discriminate|].
@@ -466,7 +533,7 @@ Proof.
     + destruct vs as [|v vs']; [discriminate|].
       destruct (val_empty v) eqn:Ev.
       * (* "same as above" in the first column: the ladder reading ends here *)
-        cbn [index_rows iter_rows index_row]. unfold is_end at 1. rewrite Hstop.
+        cbn [index_rows iter_gen index_row]. unfold is_end at 1. rewrite Hstop.
         unfold cell_empty. cbn [c_val]. rewrite Ev.
         eexists. cbn [fst snd map app]. split; [reflexivity|]. right. reflexivity.
       * (* first cell not blank: no substitution, both readings work on the sheet row itself *)
@@ -475,25 +542,25 @@ Proof.
         { destruct prevL as [p|]; cbn [option_map]; [|reflexivity].
           unfold vfill_row. cbn [firstn skipn app vfill_from]. rewrite Ev. reflexivity. }
         rewrite Hcurv.
-        cbn [index_rows iter_rows]. rewrite !is_end_index.
+        cbn [index_rows iter_gen]. rewrite !is_end_index.
         assert (Hv : vis_end (plain_of cf) (v :: vs') = vis_end cf (v :: vs')) by reflexivity. rewrite Hv.
         unfold vis_end. rewrite Hstop, Ev.
-        cbn [cf_ladder plain_of]. rewrite Hlad.
+        unfold cur_row. cbn [cf_ladder plain_of]. rewrite Hlad.
         assert (Hcur : (match prevL with
                         | Some p => fill_row 0 p (index_row r0 0 (v :: vs'))
                         | None => Ok (index_row r0 0 (v :: vs')) end) = Ok (index_row r0 0 (v :: vs'))).
         { destruct prevL as [p|]; [|reflexivity].
           unfold fill_row. cbn [index_row skipn firstn fill_from]. unfold cell_empty. cbn [c_val].
           rewrite Ev. reflexivity. }
-        rewrite Hcur. cbn [cf_rules cf_nid plain_of].
-        destruct (construct (cf_rules cf) bs (cf_nid cf) (index_row r0 0 (v :: vs'))) as [o|e].
+        rewrite Hcur.
+        destruct (ctor (index_row r0 0 (v :: vs'))) as [o|e].
         -- specialize (IH (S r0) (Some (index_row r0 0 (v :: vs'))) (Some (index_row r0 0 (v :: vs')))).
            cbn [option_map] in IH. rewrite map_cval_index_row in IH.
            destruct IH as [rest [IH1 IH2]].
-           destruct (iter_rows cf bs (Some 0%nat) (Some (index_row r0 0 (v :: vs'))) (index_rows (S r0) vrows))
+           destruct (iter_gen cf ctor (Some 0%nat) (Some (index_row r0 0 (v :: vs'))) (index_rows (S r0) vrows))
              as [os e1].
-           destruct (iter_rows (plain_of cf) bs (Some 0%nat) (Some (index_row r0 0 (v :: vs'))) _) as [os' e2].
-           unfold out_prefix. cbn [fst snd map] in *. exists rest. rewrite IH1. split; [reflexivity|exact IH2].
+           destruct (iter_gen (plain_of cf) ctor (Some 0%nat) (Some (index_row r0 0 (v :: vs'))) _) as [os' e2].
+           unfold out_prefix_g. cbn [fst snd map] in *. exists rest. rewrite IH1. split; [reflexivity|exact IH2].
         -- apply out_sim_prefix. split; reflexivity.
 Qed.
 
@@ -514,7 +581,8 @@ Proof.
       destruct (bind_all_k known (cf_rules cf) (map val_title vs)) as [bs|e];
         [|apply out_sim_prefix; split; reflexivity].
       rewrite (Hg r0 vs eq_refl).
-      apply (iter_rows_prefix cf bs Hlad Hstop rest (S r0) None None).
+      rewrite !iter_rows_gen. cbn [cf_rules cf_nid plain_of].
+      apply (iter_gen_prefix item_vals cf _ Hlad Hstop rest (S r0) None None).
 Qed.
 
 (* For every ladder reading (both end rules): the items are a prefix of the items of the filled-in
@@ -542,6 +610,53 @@ Proof.
   - destruct (ladder_equiv_gen known cf sh w Hw Hlad) as [H1 H2]; [right; rewrite Ef; discriminate|].
     exists []. rewrite app_nil_r. auto.
   - destruct (ladder_equiv_gen known cf sh w Hw Hlad) as [H1 H2]; [right; rewrite Ef; discriminate|].
+    exists []. rewrite app_nil_r. auto.
+Qed.
+
+(* the same for a reader with several rule sets *)
+Lemma read_cells_m_prefix mc :
+  mc_ladder mc = true -> stop_first (mc_loop mc) = true ->
+  forall sh r0,
+    (forall t tvs, find_title sh r0 = Some (t, tvs) -> first_some_pos (map val_title tvs) 0 = Some 0%nat) ->
+    out_prefix_g tuple_vals (read_cells_m mc (index_rows r0 sh))
+                 (read_cells_m (plain_m mc) (index_rows r0 (fill_sheet sh))).
+Proof.
+  intros Hlad Hstop. induction sh as [|vs rest IH]; intros r0 Hg.
+  - apply out_sim_prefix. split; reflexivity.
+  - cbn [fill_sheet find_title] in *. destruct (vrow_blank vs) eqn:Eb.
+    + unfold read_cells_m. cbn [index_rows skip_blank]. rewrite !row_empty_index, Eb.
+      apply (IH (S r0)). exact Hg.
+    + unfold read_cells_m. cbn [index_rows skip_blank]. rewrite !row_empty_index, Eb.
+      rewrite !titles_of_index. cbn [mc_objs plain_m].
+      destruct (bind_objs (known_all (mc_objs mc)) (map val_title vs) (mc_objs mc)) as [bss|e];
+        [|apply out_sim_prefix; split; reflexivity].
+      rewrite (Hg r0 vs eq_refl).
+      rewrite !iter_rows_m_gen. cbn [mc_objs plain_m].
+      change (mc_loop (plain_m mc)) with (plain_of (mc_loop mc)).
+      apply (iter_gen_prefix tuple_vals (mc_loop mc) _ Hlad Hstop rest (S r0) None None).
+Qed.
+
+Lemma ladder_prefix_m_l mc sh w :
+  Forall (fun vs => length vs = w) sh -> mc_ladder mc = true ->
+  exists rest,
+    map tuple_vals (fst (read_table_m (plain_m mc) (fill_sheet sh))) =
+    map tuple_vals (fst (read_table_m mc sh)) ++ rest /\
+    ((rest = [] /\ snd (read_table_m mc sh) = snd (read_table_m (plain_m mc) (fill_sheet sh))) \/
+     (stop_first (mc_loop mc) = true /\ first_some_pos (sheet_titles sh) 0 = Some 0%nat /\
+      snd (read_table_m mc sh) = None)).
+Proof.
+  intros Hw Hlad.
+  destruct (stop_first (mc_loop mc)) eqn:Hstop.
+  2:{ destruct (ladder_equiv_m_gen mc sh w Hw Hlad (or_introl Hstop)) as [H1 H2].
+      exists []. rewrite app_nil_r. auto. }
+  destruct (first_some_pos (sheet_titles sh) 0) as [[|f]|] eqn:Ef.
+  - assert (Hp : out_prefix_g tuple_vals (read_table_m mc sh) (read_table_m (plain_m mc) (fill_sheet sh))).
+    { unfold read_table_m, index_sheet. apply (read_cells_m_prefix mc Hlad Hstop sh 0).
+      intros t tvs Ht. unfold sheet_titles, title_row in Ef. rewrite Ht in Ef. exact Ef. }
+    destruct Hp as [rest [H1 [H2|H2]]]; exists rest; auto.
+  - destruct (ladder_equiv_m_gen mc sh w Hw Hlad) as [H1 H2]; [right; rewrite Ef; discriminate|].
+    exists []. rewrite app_nil_r. auto.
+  - destruct (ladder_equiv_m_gen mc sh w Hw Hlad) as [H1 H2]; [right; rewrite Ef; discriminate|].
     exists []. rewrite app_nil_r. auto.
 Qed.
 
